@@ -52,6 +52,12 @@ func NewWarmUpTrafficShapingCalculator(owner *TrafficShapingController, rule *Ru
 	warningToken := uint64((float64(rule.WarmUpPeriodSec) * rule.Threshold) / float64(coldFactor-1))
 
 	maxToken := warningToken + uint64(2*float64(rule.WarmUpPeriodSec)*rule.Threshold/float64(1.0+coldFactor))
+	if maxToken <= warningToken {
+		// A small threshold x period with a large cold factor truncates the room above the warning line
+		// to nothing, and a bucket that cannot rise above the line never makes the rule cold: it
+		// admitted the full threshold right after loading and after any idle time.
+		maxToken = warningToken + 1
+	}
 
 	slope := float64(coldFactor-1.0) / rule.Threshold / float64(maxToken-warningToken)
 
